@@ -88,7 +88,13 @@ package backends
 
 // every GCS operation addresses the configured bucket and the object name computed by buildPath for (path, key); Set
 // succeeds only if the writer was closed without error (the object is committed on Close)
+// C08: as for S3, what Get hands out is the client's reader itself, Get fails exactly when the client reports a failure,
+// and the download is still alive when Get returns: it runs under the caller's context, or under one derived here of
+// which nothing has been released (a reader whose context is cancelled on return breaks off after the first buffer)
 //@ func (*GCSCache).Get(gcs, ctx, path, key) (r, err)
+//@   modifies gcsReads, gcsLastReadOK, gcsLastReader, gcsLastReaderCtx, cancelCalls
+//@   ensures [one_download_handed_out_as_it_is] gcsReads == old(gcsReads) + 1 && (err == nil <==> gcsLastReadOK) && (err == nil ==> ref(r) == gcsLastReader)
+//@   ensures [download_outlives_get] err == nil ==> gcsLastReaderCtx == ref(ctx) || cancelCalls == old(cancelCalls)
 //@   before_call Bucket#1 [same_bucket] arg1 == gcs.bucketName
 //@   before_call Object#1 [same_object] arg1 == ite(gcs.prefix == "", gcs.workspacePrefix, gcs.prefix + "/" + gcs.workspacePrefix) + "/" + trimChars(path, "/") + "/" + trimChars(key, "/")
 
